@@ -384,23 +384,33 @@ pub fn check_reads(values: &[i128], r: &Reader) -> Option<Outcome> {
     None
 }
 
-/// IntVec / UintVector: order (of the packed u64 image), length bucket and range-width bucket.  The buckets are the
-/// thresholds visible in int_vec.rs: len < 4 raw, len <= 1000 / > 1000 (small-dataset MinMax vs BlockBased),
-/// range width <= 16, 59..63 (bit fields that cannot be read with one unaligned 64-bit load), 64.
+/// IntVec / UintVector outcome class: order of the packed u64 image, then the buckets at which int_vec.rs switches
+/// strategy (`len < 4` raw; `len <= 1000 || width <= 16` MinMax else BlockBased in analyze_small_dataset_strategy;
+/// `len > 10000` analyze_optimal_strategy), and for MinMax-sized inputs the range width bucket (<=16, 17..58,
+/// 59..63 = bit fields that do not fit one unaligned 64-bit load, 64).  Sorted inputs take the Delta path whatever
+/// their size.
 fn generic_class(values: &[i128]) -> String {
-    let order = if values.windows(2).all(|w| w[0] <= w[1]) { "sorted" } else { "unsorted" };
-    let nb = match values.len() {
-        0..=3 => "n<4",
-        4..=1000 => "n4..1000",
-        _ => "n>1000",
-    };
-    let wb = match width_class(values) {
-        "w-" | "w0" | "w1..16" => "w<=16",
-        "w59..63" => "w59..63",
-        "w64" => "w64",
-        _ => "w17..58",
-    };
-    format!("{order}/{nb}/{wb}")
+    if values.len() >= 4 && values.windows(2).all(|w| w[0] <= w[1]) {
+        return "sorted".into();
+    }
+    let wc = width_class(values);
+    match values.len() {
+        0..=3 => "n<4".into(),
+        4..=1000 => {
+            let wb = match wc {
+                "w-" | "w0" | "w1..16" => "w<=16",
+                "w59..63" => "w59..63",
+                "w64" => "w64",
+                _ => "w17..58",
+            };
+            format!("unsorted/n4..1000/{wb}")
+        }
+        n => {
+            let nb = if n <= 10000 { "n1001..10000" } else { "n>10000" };
+            let wb = if matches!(wc, "w-" | "w0" | "w1..16") { "w<=16" } else { "w>16" };
+            format!("unsorted/{nb}/{wb}")
+        }
+    }
 }
 
 /// the message of a panic with the numbers removed: `attempt to subtract with overflow`
